@@ -101,6 +101,8 @@ def is_pure(fn):
         return True
     if isinstance(fn, np.ufunc):
         return True
+    if mod.split(".")[0] in ("hdf5plugin",):
+        return True
     if mod.startswith("numpy") or mod in ("math", "operator", "posixpath", "copy",
                                            "json", "re", "hashlib", "functools", "itertools"):
         return True
@@ -112,7 +114,13 @@ def is_pure(fn):
             return True
         if isinstance(slf, (list, dict, set, np.ndarray)):
             return True      # mutation of concrete containers is recorded by the caller
-        if type(slf).__module__ in ("pathlib", "re", "numpy.random.mtrand"):
+        if isinstance(slf, _pathlib.PurePath):
+            # only the purely lexical path operations run natively; everything that
+            # touches the file system has a model (P-* axioms) or is unsupported
+            return nm in ("with_suffix", "with_name", "with_stem", "joinpath", "as_posix",
+                          "is_absolute", "relative_to", "__truediv__", "__str__", "__fspath__",
+                          "match", "is_relative_to")
+        if type(slf).__module__ in ("re", "numpy.random.mtrand"):
             return True
     return False
 
@@ -220,6 +228,10 @@ def binop(interp, op, a, b, inplace=False):
             return _PYOPS[op](a, b)
         except Exception as ex:
             raise eng.PyRaise(type(ex), ex.args)
+    if op == "Div" and (isinstance(a, _pathlib.PurePath) or (isinstance(a, SObj) and a.cls == "SymPath")):
+        # path / "name with symbolic fields": a path value kept structurally
+        o = ctx.obj("SymPath", {"parent": a, "name": b, "suffix": None})
+        return o
     if isinstance(a, SBytes) or isinstance(b, SBytes):
         if op != "Add":
             raise eng.Unsupported("bytes op " + op)
@@ -238,7 +250,11 @@ def binop(interp, op, a, b, inplace=False):
         return type(a)(list(a) + list(b))
     if isinstance(a, (list, tuple)) and isinstance(b, int) and op == "Mult":
         return type(a)(list(a) * b)
-    if isinstance(a, (str, SStr)) and isinstance(b, (str, SStr)) and op == "Add":
+    if isinstance(a, (str, SStr, SFmt)) and isinstance(b, (str, SStr, SFmt)) and op == "Add":
+        if isinstance(a, SFmt) or isinstance(b, SFmt):
+            pa = a.parts if isinstance(a, SFmt) else [a]
+            pb = b.parts if isinstance(b, SFmt) else [b]
+            return SFmt(list(pa) + list(pb))
         return SStr(z3.Concat(to_z3(a), to_z3(b)))
     if isinstance(a, str) and op == "Mod":
         return str_format_opaque(interp, a, b)
@@ -335,6 +351,15 @@ def compare(interp, op, a, b):
         return arr_compare(interp, op, a, b)
     if isinstance(a, SF) or isinstance(b, SF):
         return f_compare(interp, op, a, b)
+    if isinstance(a, SOpaque) and getattr(a, "pytype", None) in (None, np.ndarray) \
+            and isinstance(b, (int, float)) and not isinstance(b, bool):
+        # elementwise comparison of one opaque event payload with a literal
+        from . import npmodel
+        axiom("N-ELEMWISE (comparison with a scalar acts inside one event payload)")
+        r = SOpaque(npmodel.elem_fn(f"elem_{op}_{b}")(a.e))
+        r.pytype = np.ndarray
+        r.dtype = np.dtype(bool)
+        return r
     if _isnum(a) and _isnum(b):
         k = _arith_kind(a, b)
         x, y = to_z3(a, k), to_z3(b, k)
@@ -354,6 +379,16 @@ def compare(interp, op, a, b):
             return wrap(y < x)
         if op == "GtE":
             return wrap(y <= x)
+    if isinstance(a, tuple) and isinstance(b, tuple) and op in ("Lt", "LtE", "Gt", "GtE"):
+        # lexicographic comparison of tuples
+        if op in ("Gt", "GtE"):
+            return compare(interp, {"Gt": "Lt", "GtE": "LtE"}[op], b, a)
+        res = z3.BoolVal(len(a) < len(b)) if op == "Lt" else z3.BoolVal(len(a) <= len(b))
+        for x, y in reversed(list(zip(a, b))):
+            lt = compare(interp, "Lt", x, y)
+            eq = compare(interp, "Eq", x, y)
+            res = z3.Or(to_z3(lt, "bool"), z3.And(to_z3(eq, "bool"), res))
+        return wrap(res)
     if op in ("Eq", "NotEq"):
         r = generic_eq(interp, a, b)
         if isinstance(r, bool):
@@ -1724,3 +1759,343 @@ def _str_contains(interp, a, b):
     if isinstance(a, str) and isinstance(b, str):
         return b in a
     return wrap(z3.Contains(to_z3(a), to_z3(b)))
+
+
+import warnings as _warnings   # noqa: E402
+
+
+@model(_warnings.simplefilter, _warnings.filterwarnings, _warnings.warn)
+def _warn_noop(interp, *a, **k):
+    """warnings machinery has no effect on any property (dropped)"""
+    return None
+
+
+@model(_warnings.catch_warnings)
+def _catch_warnings(interp, *a, record=False, **k):
+    ctx = interp.ctx
+    w = None
+    if record:
+        if getattr(getattr(interp.cur_frame, "unit", None), "no_warnings_recorded", False):
+            w = []          # scenario assumption of the unit: nothing was recorded
+        else:
+            w = ctx.arr("recorded_warnings", "elem")
+            w.is_list = True
+    o = ctx.obj("WarnCtx", {"_w": w})
+    return o
+
+
+def _warnctx_enter(interp, o):
+    return o.fields["_w"]
+
+
+def _warnctx_exit(interp, o, *a):
+    return None
+
+
+def _op_path_rename(interp, obj, target):
+    interp.ctx.__dict__.setdefault("fs_log", []).append(("rename", obj, target))
+    return target
+
+
+OPAQUE_METHODS[("path", "rename")] = _op_path_rename
+
+
+# --------------------------------------------------------------------------
+# strings (z3 sequences) and time
+# --------------------------------------------------------------------------
+def str_term(v):
+    """z3 string term of a str-like value (SFmt is concatenated)"""
+    eng = _engine()
+    if isinstance(v, str):
+        return z3.StringVal(v)
+    if isinstance(v, SStr):
+        return v.e
+    if isinstance(v, SInt):
+        return z3.IntToStr(v.e)
+    if isinstance(v, SFmt):
+        parts = [str_term(p) for p in v.parts]
+        return z3.Concat(*parts) if len(parts) > 1 else parts[0]
+    raise eng.Unsupported(f"string value of {type(v).__name__}")
+
+
+def str_join(interp, sep, items):
+    eng = _engine()
+    p = interp.iter_plan(items)
+    if p[0] != "concrete":
+        raise eng.Unsupported("str.join of a symbolic-length sequence")
+    parts = []
+    for i, x in enumerate(p[1]):
+        if i:
+            parts.append(z3.StringVal(sep))
+        parts.append(str_term(x))
+    if not parts:
+        return ""
+    return SStr(z3.Concat(*parts) if len(parts) > 1 else parts[0])
+
+
+def _sstr_getitem(interp, s, key):
+    eng = _engine()
+    L = z3.Length(s.e)
+    if isinstance(key, slice):
+        a, b = clamp_slice(L, key, interp.ctx)
+        return SStr(z3.SubString(s.e, a, b - a))
+    if isinstance(key, (int, SInt)):
+        kk = norm_index(interp, L, key)
+        return SStr(z3.SubString(s.e, kk, 1))
+    raise eng.Unsupported("string index")
+
+
+_getitem_prev = getitem
+
+
+def getitem(interp, obj, key):   # noqa: F811
+    if isinstance(obj, SStr):
+        return _sstr_getitem(interp, obj, key)
+    return _getitem_prev(interp, obj, key)
+
+
+import time as _time   # noqa: E402
+
+epoch = z3.Function("epoch", z3.StringSort(), z3.RealSort())     # mktime(strptime(stamp))
+str_frac = z3.Function("str_frac", z3.StringSort(), z3.RealSort())  # float(".ff")
+
+
+@model(_time.strptime)
+def _strptime(interp, s, fmt):
+    """T-STRPTIME: the parsed time of a well-formed stamp is a function of the stamp"""
+    axiom("T-EPOCH (mktime(strptime(stamp)) is a function of the stamp, monotone in the "
+          "lexicographic order of zero-padded stamps; DST / time zone not modelled)")
+    o = interp.ctx.obj("StructTime", {"stamp": str_term(s), "fmt": fmt})
+    return o
+
+
+@model(_time.mktime)
+def _mktime(interp, st):
+    return wrap(epoch(st.fields["stamp"]))
+
+
+_float_prev = _MODELS[float]
+
+
+def _float_str(interp, v=0.0):
+    if isinstance(v, SStr):
+        axiom("S-FLOAT (float of a fractional-seconds suffix '.ff' lies in [0, 1))")
+        r = str_frac(v.e)
+        interp.ctx.assume(z3.And(r >= 0, r < 1))
+        return wrap(r)
+    return _float_prev(interp, v)
+
+
+_MODELS[float] = _float_str
+
+pyround = z3.Function("pyround", z3.RealSort(), z3.IntSort())
+
+
+def _round_real(interp, v, nd=None):
+    if isinstance(v, SReal) and nd is None:
+        axiom("N-ROUND (round(x) is an integer within 1/2 of x; round(0) == 0)")
+        r = pyround(v.e)
+        interp.ctx.assume(z3.And(z3.ToReal(r) - v.e <= z3.RealVal("1/2"), v.e - z3.ToReal(r) <= z3.RealVal("1/2")))
+        interp.ctx.assume(pyround(z3.RealVal(0)) == 0)
+        return wrap(r)
+    return _round(interp, v, nd)
+
+
+_MODELS[round] = _round_real
+
+
+def sort_small(interp, items, key=None, reverse=False):
+    """stable insertion sort of a concrete-length list whose keys may be symbolic:
+    each comparison forks the path (the result is one concrete permutation)"""
+    eng = _engine()
+    if reverse:
+        raise eng.Unsupported("sorted(reverse=True) with symbolic keys")
+    keyed = []
+    for x in items:
+        kx = x if key is None else interp.call(key, [x], {}, interp.cur_frame)
+        keyed.append((kx, x))
+    out = []
+    for kx, x in keyed:
+        pos = len(out)
+        # stable: insert after all elements that are <= x
+        while pos > 0:
+            lt = compare(interp, "Lt", kx, out[pos - 1][0])
+            if interp.ctx.decide(lt if isinstance(lt, bool) else lt):
+                pos -= 1
+            else:
+                break
+        out.insert(pos, (kx, x))
+    return [x for _, x in out]
+
+
+def _sorted_sym(interp, it, key=None, reverse=False):
+    eng = _engine()
+    if not eng._has_sym(it) and (key is None or not isinstance(key, (eng.Closure,))):
+        return sorted(it, key=key, reverse=reverse)
+    p = interp.iter_plan(it)
+    if p[0] != "concrete":
+        raise eng.Unsupported("sorted of a symbolic-length sequence")
+    if not eng._has_sym(p[1]) and key is None:
+        return sorted(p[1], reverse=reverse)
+    return sort_small(interp, p[1], key, reverse)
+
+
+_MODELS[sorted] = _sorted_sym
+
+
+@model(_pathlib.Path.rename, _pathlib.Path.replace)
+def _path_rename(interp, path, target):
+    """P-RENAME: recorded in the ghost file-system log (atomic on POSIX)"""
+    axiom("P-RENAME (rename is atomic; recorded in the ghost file-system log)")
+    interp.ctx.__dict__.setdefault("fs_log", []).append(("rename", path, target))
+    return target
+
+
+@model(_pathlib.Path.unlink)
+def _path_unlink(interp, path, *a, **k):
+    interp.ctx.__dict__.setdefault("fs_log", []).append(("unlink", path))
+    return None
+
+
+@model(_pathlib.Path.is_file, _pathlib.Path.is_dir)
+def _path_isfile(interp, path):
+    return _path_exists(interp, path)
+
+
+@model(_pathlib.Path.resolve)
+def _path_resolve(interp, path, *a, **k):
+    return path
+
+
+# --------------------------------------------------------------------------
+# opaque strings: str values about which only equality, an (axiomatised) order,
+# concatenation, slicing and length are known -- no string solver involved
+# --------------------------------------------------------------------------
+ostr_concat = z3.Function("ostr_concat", _Elem, _Elem, _Elem)
+ostr_slice = z3.Function("ostr_slice", _Elem, z3.IntSort(), z3.IntSort(), _Elem)
+ostr_lt = z3.Function("ostr_lt", _Elem, _Elem, z3.BoolSort())
+ostr_of_int = z3.Function("ostr_of_int", z3.IntSort(), _Elem)
+ostr_frac = z3.Function("ostr_frac", _Elem, z3.RealSort())
+ostr_epoch = z3.Function("ostr_epoch", _Elem, z3.RealSort())
+
+
+def ostr(e):
+    r = SOpaque(e)
+    r.pytype = str
+    return r
+
+
+def ostr_term(v):
+    if isinstance(v, SOpaque):
+        return v.e
+    if isinstance(v, str):
+        return z3.Const("lit!" + "".join(c if c.isalnum() else f"_{ord(c):x}_" for c in v), _Elem)
+    if isinstance(v, SInt):
+        return ostr_of_int(v.e)
+    if isinstance(v, int):
+        return ostr_of_int(Z(v))
+    raise _engine().Unsupported(f"opaque string from {type(v).__name__}")
+
+
+def ostr_order_facts(ctx, a, b):
+    """S-ORDER: str < is a strict total order (ground instances for the compared terms)"""
+    axiom("S-ORDER (str '<' is a strict total order; ground instances)")
+    seen = ctx.__dict__.setdefault("_ostr_terms", [])
+    for t in (a, b):
+        if not any(t.eq(x) for x in seen):
+            for x in seen:
+                ctx.assume(z3.Or(ostr_lt(t, x), ostr_lt(x, t), t == x))
+                ctx.assume(z3.Not(z3.And(ostr_lt(t, x), ostr_lt(x, t))))
+                for y in seen:
+                    for (p, q, r) in ((t, x, y), (x, t, y), (x, y, t)):
+                        ctx.assume(z3.Implies(z3.And(ostr_lt(p, q), ostr_lt(q, r)), ostr_lt(p, r)))
+            ctx.assume(z3.Not(ostr_lt(t, t)))
+            seen.append(t)
+
+
+_binop_prev = binop
+
+
+def binop(interp, op, a, b, inplace=False):   # noqa: F811
+    if op == "Add" and (isinstance(a, SOpaque) and a.pytype is str or isinstance(b, SOpaque) and b.pytype is str) \
+            and isinstance(a, (SOpaque, str)) and isinstance(b, (SOpaque, str)):
+        return ostr(ostr_concat(ostr_term(a), ostr_term(b)))
+    return _binop_prev(interp, op, a, b, inplace)
+
+
+_compare_prev = compare
+
+
+def compare(interp, op, a, b):   # noqa: F811
+    sa = isinstance(a, SOpaque) and a.pytype is str
+    sb = isinstance(b, SOpaque) and b.pytype is str
+    if (sa or sb) and isinstance(a, (SOpaque, str)) and isinstance(b, (SOpaque, str)) \
+            and op in ("Lt", "LtE", "Gt", "GtE", "Eq", "NotEq"):
+        x, y = ostr_term(a), ostr_term(b)
+        if op == "Eq":
+            return wrap(x == y)
+        if op == "NotEq":
+            return wrap(x != y)
+        ostr_order_facts(interp.ctx, x, y)
+        return wrap({"Lt": ostr_lt(x, y), "Gt": ostr_lt(y, x),
+                     "LtE": z3.Not(ostr_lt(y, x)), "GtE": z3.Not(ostr_lt(x, y))}[op])
+    return _compare_prev(interp, op, a, b)
+
+
+_getitem_prev2 = getitem
+
+
+def getitem(interp, obj, key):   # noqa: F811
+    if isinstance(obj, SOpaque) and obj.pytype is str and isinstance(key, slice) and key.step is None:
+        lo = to_z3(key.start) if key.start is not None else Z(0)
+        hi = to_z3(key.stop) if key.stop is not None else Z(-1)
+        return ostr(ostr_slice(obj.e, lo, hi))
+    return _getitem_prev2(interp, obj, key)
+
+
+_str_join_prev = str_join
+
+
+def str_join(interp, sep, items):   # noqa: F811
+    p = interp.iter_plan(items)
+    if p[0] == "concrete" and any(isinstance(x, SOpaque) for x in p[1]):
+        acc = None
+        for x in p[1]:
+            t = ostr_term(x if not isinstance(x, SFmt) else (x.parts[0] if len(x.parts) == 1 else x))
+            acc = t if acc is None else ostr_concat(ostr_concat(acc, ostr_term(sep)), t)
+        return ostr(acc)
+    return _str_join_prev(interp, sep, items)
+
+
+_float_prev2 = _MODELS[float]
+
+
+def _float_ostr(interp, v=0.0):
+    if isinstance(v, SOpaque) and v.pytype is str:
+        axiom("S-FLOAT (float of a fractional-seconds suffix '.ff' lies in [0, 1))")
+        r = ostr_frac(v.e)
+        interp.ctx.assume(z3.And(r >= 0, r < 1))
+        return wrap(r)
+    return _float_prev2(interp, v)
+
+
+_MODELS[float] = _float_ostr
+_strptime_prev = _MODELS[_time.strptime]
+
+
+def _strptime_ostr(interp, s, fmt):
+    if isinstance(s, SOpaque) and s.pytype is str:
+        axiom("T-EPOCH (mktime(strptime(stamp)) is a function of the stamp, monotone in the "
+              "lexicographic order of zero-padded stamps; DST / time zone not modelled)")
+        return interp.ctx.obj("StructTime", {"ostamp": s.e, "fmt": fmt})
+    return _strptime_prev(interp, s, fmt)
+
+
+def _mktime_any(interp, st):
+    if "ostamp" in st.fields:
+        return wrap(ostr_epoch(st.fields["ostamp"]))
+    return wrap(epoch(st.fields["stamp"]))
+
+
+_MODELS[_time.strptime] = _strptime_ostr
+_MODELS[_time.mktime] = _mktime_any
